@@ -166,4 +166,17 @@ theorem delta_moveAssign {p p' : Pool} {self other c1 c2 : Cont}
     simp only [Cont.ownIds, Cont.owned, List.count_append, List.count_nil] at *
     omega
 
+theorem delta_convertFrom {p p' : Pool} {self other c' : Cont} {so : Bool}
+    (h : Cont.convertFrom p self other so = .ok (p', c')) (hp : PoolPos p) :
+    Delta p p' c'.ownIds self.ownIds ∧ PoolPos p' := by
+  unfold Cont.convertFrom at h
+  split at h
+  · unfold Cont.svConvert at h
+    split at h
+    · cases h
+    · split at h
+      · exact delta_cloneFrom h hp
+      · exact delta_cloneCross h hp
+  · exact delta_assign h hp
+
 end FeatModel.Pool
